@@ -44,10 +44,41 @@ def build_simple(g):
                 list(G.edges())
                 G.add_edge(u, v)
         return G
+    if kind in ('networkx-gaps', 'networkx-digits'):
+        # same graph under labels that are not 1..n: integers with gaps (negative ones included) or strings of
+        # digits; the documented numbering follows the sorted order of the labels (digit strings: as numbers)
+        # (even number of edges: positive integers with gaps; odd: starting below zero)
+        lab = ((lambda i: 3 * i + 2) if len(g['edges']) % 2 == 0 else (lambda i: 10 * i - 25)) if kind == 'networkx-gaps' else (lambda i: str(7 * i + 2))
+        G = networkx.Graph()
+        G.add_nodes_from(lab(i) for i in range(g['n'], 0, -1))
+        G.add_edges_from((lab(u), lab(v)) for u, v in g['edges'])
+        G.name = 'nx simple graph (labels with gaps)'
+        return G
+    if kind == 'cnfgen-rejected':
+        # same graph on an object that has seen refused calls: illegal single edges and a batch refused half way
+        n = g['n']
+        G = Graph(n)
+        es = [tuple(e) for e in g['edges']]
+        for u, v in ((0, 1), (n + 1, 1), (1, n + 1), (1, 1), (n, -1)):
+            _refused(G.add_edge, u, v)
+        half = list(reversed(es))[:(len(es) + 1) // 2]
+        _refused(G.add_edges_from, [(v, u) for u, v in half] + [(n + 1, 1)] + es)
+        for u, v in es:
+            G.add_edge(u, v)
+            _refused(G.add_edge, u, n + 1)
+        return G
     G = Graph(g['n'])
     for u, v in g['edges']:
         G.add_edge(u, v)
     return G
+
+
+def _refused(fn, *args):
+    """call that the library is expected to refuse (or, for edges that happen to be legal, to accept)"""
+    try:
+        fn(*args)
+    except ValueError:
+        pass
 
 
 def build_bipartite(g):
@@ -75,7 +106,28 @@ def build_bipartite(g):
         G.add_edges_from(('r{:03d}'.format(v), 'l{:03d}'.format(u)) for u, v in reversed(g['edges']))
         G.name = 'nx bipartite graph (right side first)'
         return G
+    if kind == 'networkx-gaps':
+        # integer labels that are neither contiguous nor grouped by side; the numbering inside a side follows insertion
+        G = networkx.Graph()
+        for i in range(1, max(L, R) + 1):
+            if i <= L:
+                G.add_node(20 * i + 3, bipartite=0)
+            if i <= R:
+                G.add_node(20 * i - 4, bipartite=1)
+        G.add_edges_from((20 * v - 4, 20 * u + 3) if (u + v) % 2 else (20 * u + 3, 20 * v - 4) for u, v in g['edges'])
+        G.name = 'nx bipartite graph (labels with gaps)'
+        return G
     B = BipartiteGraph(L, R)
+    if kind == 'cnfgen-rejected':
+        es = [tuple(e) for e in g['edges']]
+        for u, v in ((0, 1), (L + 1, 1), (1, R + 1), (1, 0), (-1, 1)):
+            _refused(B.add_edge, u, v)
+        half = list(reversed(es))[:(len(es) + 1) // 2]
+        _refused(B.add_edges_from, half + [(L + 1, R + 1)] + es)
+        for u, v in es:
+            B.add_edge(u, v)
+            _refused(B.add_edge, u, R + 1)
+        return B
     if kind == 'cnfgen-inspected':
         # same graph, but its views are read while it is only half built (lazy indexes must not go stale)
         es = g['edges']
@@ -109,10 +161,35 @@ def build_digraph(g):
         G.add_edges_from((u, v) for u, v in reversed(g['edges']))
         G.name = 'nx digraph (reversed insertion)'
         return G
+    if g.get('as') == 'networkx-gaps':
+        lab = (lambda i: 3 * i + 2) if len(g['edges']) % 2 == 0 else (lambda i: 10 * i - 25)      # noqa
+        G = networkx.DiGraph()
+        G.add_nodes_from(lab(i) for i in range(g['n'], 0, -1))
+        G.add_edges_from((lab(u), lab(v)) for u, v in g['edges'])
+        G.name = 'nx digraph (labels with gaps)'
+        return G
     D = DirectedGraph(g['n'])
+    if g.get('as') == 'cnfgen-rejected':
+        n = g['n']
+        es = [tuple(e) for e in g['edges']]
+        sinks = [v for v in range(1, n + 1) if not any(u == v for u, _ in es)]
+        for u, v in [(0, 1), (n + 1, 1), (1, 0)] + [(v, n + 1) for v in sinks] + [(n + 1, v) for v in range(1, n + 1)]:
+            _refused(D.add_edge, u, v)
+        half = list(reversed(es))[:(len(es) + 1) // 2]
+        _refused(D.add_edges_from, half + [(1, n + 1)] + es)
+        for u, v in es:
+            D.add_edge(u, v)
+            _refused(D.add_edge, v, n + 1)
+        return D
     for u, v in g['edges']:
         D.add_edge(u, v)
     return D
+
+
+# rotations used by the enumerated slices so that every way of handing over a graph meets every shape
+SIMPLE_ROT = ('networkx', 'cnfgen', 'cnfgen-grown', 'cnfgen', 'networkx-rev', 'networkx-gaps', 'cnfgen-rejected', 'cnfgen', 'networkx-digits')
+BIP_ROT = ('networkx', 'cnfgen', 'networkx-rl', 'cnfgen-inspected', 'cnfgen', 'networkx-gaps', 'cnfgen-rejected')
+DAG_ROT = ('networkx', 'cnfgen', 'networkx-rev', 'cnfgen-rejected', 'cnfgen', 'networkx-gaps', 'cnfgen')
 
 
 # ---------------------------------------------------------------------------
@@ -168,14 +245,14 @@ def _edge_subset(draw, P, max_edges=None):
 
 
 @st.composite
-def simple_graphs(draw, nmin=0, nmax=7, max_edges=None, kinds=('cnfgen', 'networkx', 'networkx-rev', 'cnfgen-grown')):
+def simple_graphs(draw, nmin=0, nmax=7, max_edges=None, kinds=('cnfgen', 'networkx', 'networkx-rev', 'cnfgen-grown', 'networkx-gaps', 'networkx-digits', 'cnfgen-rejected')):
     n = draw(st.integers(nmin, nmax))
     edges = _edge_subset(draw, all_pairs(n), max_edges)
     return {'n': n, 'edges': edges, 'as': draw(st.sampled_from(list(kinds)))}
 
 
 @st.composite
-def bipartite_graphs(draw, Lmin=0, Lmax=4, Rmin=0, Rmax=5, max_edges=None, kinds=('cnfgen', 'networkx', 'networkx-rl', 'cnfgen-inspected')):
+def bipartite_graphs(draw, Lmin=0, Lmax=4, Rmin=0, Rmax=5, max_edges=None, kinds=('cnfgen', 'networkx', 'networkx-rl', 'cnfgen-inspected', 'networkx-gaps', 'cnfgen-rejected')):
     L = draw(st.integers(Lmin, Lmax))
     R = draw(st.integers(Rmin, Rmax))
     P = [(u, v) for u in range(1, L + 1) for v in range(1, R + 1)]
@@ -184,12 +261,12 @@ def bipartite_graphs(draw, Lmin=0, Lmax=4, Rmin=0, Rmax=5, max_edges=None, kinds
 
 
 @st.composite
-def dags(draw, nmin=1, nmax=7, max_edges=None, kinds=('cnfgen', 'networkx', 'networkx-rev')):
+def dags(draw, nmin=1, nmax=7, max_edges=None, kinds=('cnfgen', 'networkx', 'networkx-rev', 'networkx-gaps', 'cnfgen-rejected')):
     return draw(simple_graphs(nmin=nmin, nmax=nmax, max_edges=max_edges, kinds=kinds))
 
 
 @st.composite
-def digraphs(draw, nmin=0, nmax=5, kinds=('cnfgen', 'networkx'), loops=False, max_edges=None):
+def digraphs(draw, nmin=0, nmax=5, kinds=('cnfgen', 'networkx', 'networkx-gaps', 'cnfgen-rejected'), loops=False, max_edges=None):
     n = draw(st.integers(nmin, nmax))
     P = [(u, v) for u in range(1, n + 1) for v in range(1, n + 1) if loops or u != v]
     edges = _edge_subset(draw, P, max_edges)
